@@ -50,7 +50,7 @@ struct RefClient {
 };
 
 // ---------------------------------------------------------------- memory layer (memlayer.cc)
-enum ReqKind { RQ_MALLOC, RQ_REALLOC, RQ_FREE, RQ_MMAP, RQ_MUNMAP };
+enum ReqKind { RQ_MALLOC, RQ_REALLOC, RQ_FREE, RQ_MMAP, RQ_MUNMAP, RQ_SYSCALL };   // RQ_SYSCALL: madvise/mlock/mprotect... - fallible system calls about memory that the current tree does not make
 struct MemReq {        // one allocator/mapping request issued by library code
   ReqKind kind;
   size_t size;         // requested size (new size for realloc, length for mmap/munmap)
@@ -71,6 +71,7 @@ struct MemEnv {
   uint64_t fill_seed = 1;   // dirty-heap pattern
   bool realloc_move = true; // always relocate on realloc
   bool hugetlb_ok = false;  // MAP_HUGETLB attempts succeed
+  int soft_fault_pct = 0;   // per cent of the memory system calls other than malloc/realloc/mmap/munmap (madvise, mlock, ...) that fail in this run
   size_t map_limit = 0;     // the simulated machine refuses single mappings of this many bytes and more (0: only >= 1 TiB)
 };
 struct MemLayer {
@@ -80,7 +81,7 @@ struct MemLayer {
   std::vector<MemReq> op_reqs[MAX_TASKS];   // requests of the op currently running per task
   std::vector<int> op_faults[MAX_TASKS];    // k values that must fail in the current op
   int fallible_seen[MAX_TASKS] = {0};
-  unsigned long serial = 0;
+  unsigned long serial = 0, soft_calls = 0;
   // statistics (per process, reset by the engine per run)
   std::map<std::string, unsigned long> stats;
 
@@ -128,6 +129,7 @@ void api_boundary(int task, int op, bool enter);
 void run_tasks(int ntasks, void (*body)(int task, void *arg), void *arg, size_t stack_size);
 J end_run();                     // recorded switches + statistics
 extern bool enabled;
+void co_yield_point(const char *where);   // uninstrumented engines: a place where a real thread may lose the CPU (no-op in the thread engine and in single-task runs)
 }  // namespace thr
 
 // ---------------------------------------------------------------- DES reference model (desmodel.cc)
@@ -139,6 +141,8 @@ void des_block_from_lr(uint32_t l, uint32_t r, unsigned char out[8]);
 
 // ---------------------------------------------------------------- generator (gen.cc)
 J generate_plan(const std::string &prop, uint64_t seed, const std::string &tier);
+
+extern long long g_sim_clock;   // simulated time (seconds); stubs.cc
 
 // ---------------------------------------------------------------- deny-listed libc calls reached from the library
 void deny_reached(const char *name);
